@@ -206,7 +206,7 @@ def apply_tamper(content, tamper, rng, table):
                 s["sig"] = base64.b64encode(bytes(raw)).decode()
             else:
                 f = "signature" if "signature" in s else "sig"
-                s[f] = mutate_scalar(s[f], rng)
+                s[f] = mutate_scalar(s[f], rng, hex_case=False)
         return c
     if tamper == "unsigned":
         c["signatures"] = []
@@ -380,7 +380,7 @@ def set_at(obj, path, value):
     obj[path[-1]] = value
 
 
-def mutate_scalar(v, rng, bool_int_swap=True):
+def mutate_scalar(v, rng, bool_int_swap=True, hex_case=True):
     """A different value of the same JSON type (or, for booleans and the integers 0 / 1, the value of the other type that
     compares equal in Python)."""
     if isinstance(v, bool):
@@ -395,6 +395,8 @@ def mutate_scalar(v, rng, bool_int_swap=True):
         other_form = [f for f in (unicodedata.normalize("NFD", v), unicodedata.normalize("NFC", v)) if f != v]
         if other_form and rng.random() < 0.5:
             return other_form[0]       # the same text in the other Unicode normalisation form: another string
+        if v and all(c in "0123456789abcdefABCDEF" for c in v) and len(v) >= 8 and v.lower() != v.upper() and hex_case and rng.random() < 0.25:
+            return v.upper() if v != v.upper() else v.lower()       # (the same hex digits in the other letter case: another string)
         if v and all(c in "0123456789abcdef" for c in v) and len(v) >= 8:
             i = rng.randrange(len(v))
             c = "0123456789abcdef"[(int(v[i], 16) + 1 + rng.randrange(15)) % 16]
@@ -552,8 +554,16 @@ def edit_signature(content, rng):
     if not sigs:
         return None
     i = rng.randrange(len(sigs))
-    kind = rng.choice(["value", "value", "keyid", "keyid_fragment", "remove"])
-    if kind == "remove":
+    kind = rng.choice(["value", "value", "keyid", "keyid_fragment", "remove", "value_text"])
+    if kind == "value_text" and "payload" not in c:
+        kind = "value"
+    if kind == "value_text":
+        # the TEXT of an envelope's signature value changed by a character outside the base64 alphabet (a line end, a
+        # blank, a punctuation mark): another value - not the one that was made
+        v = sigs[i]["sig"]
+        k_ = rng.choice([len(v), len(v), rng.randrange(len(v) + 1)])
+        sigs[i]["sig"] = v[:k_] + rng.choice(["\n", " ", "!", ".", "\r\n"]) + v[k_:]
+    elif kind == "remove":
         del sigs[i]
     elif kind == "keyid":
         sigs[i]["keyid"] = mutate_scalar(sigs[i]["keyid"], rng)
@@ -570,7 +580,8 @@ def edit_signature(content, rng):
             raw[rng.randrange(len(raw))] ^= 1 << rng.randrange(8)
             sigs[i]["sig"] = base64.b64encode(bytes(raw)).decode()
         else:
-            sigs[i][field] = mutate_scalar(sigs[i][field], rng)
+            # (not the letter case of the hex digits: the value of a signature is the bytes the digits stand for)
+            sigs[i][field] = mutate_scalar(sigs[i][field], rng, hex_case=False)
     return c, {"sig_edit": kind, "index": i}
 
 
